@@ -37,7 +37,7 @@ Proof. exact var_len_minimal. Qed.
 Print Assumptions C06_var_minimal.
 
 (* int2ba / ba2int are big-endian two's complement, for every width *)
-Theorem C06_int2ba : forall v w signed, 1 <= w ->
+Theorem C06_int2ba : forall v w (signed : bool), 1 <= w ->
   (if signed then in_int w v else in_uint w v) = true ->
   int2ba v w signed = Ok (enc (Z.to_nat w) v) /\ ba2int (enc (Z.to_nat w) v) signed = Ok v.
 Proof. exact int2ba_enc. Qed.
